@@ -266,3 +266,23 @@ package bgv
 //@   ensures implies(isnil(err), len(opOut.Value) == len(op0.Value))
 //@   ensures implies(isnil(err), iff(opOut.MetaData.CiphertextMetaData.IsNTT, old(op0.MetaData.CiphertextMetaData.IsNTT)) && iff(opOut.MetaData.PlaintextMetaData.IsBatched, old(op0.MetaData.PlaintextMetaData.IsBatched)))
 //@   ensures implies(old(len(op0.Value[0].Coeffs)) == 1, !isnil(err))
+
+// ---- ciphertext * ciphertext without relinearisation (BGV style): the degree-2 tensor, times the
+// ---- plaintext modulus T that the evaluator keeps as an RNS scalar in double Montgomery form
+// ---- (ASSUMED invariant of the evaluator: uf_rnsmexp(tMontgomery) == 2; T itself is not interpreted);
+// ---- also when the receiver is one of the operands
+//@ afunc Evaluator.Mul#ct
+//@   property C05
+//@   dyn op1 *rlwe.Ciphertext
+//@   case len(op0.Value) == 2 && len(op1.Value) == 2 && len(opOut.Value) == 2 && !eval.ScaleInvariant
+//@   case len(op0.Value) == 2 && len(op1.Value) == 2 && len(opOut.Value) == 3 && !eval.ScaleInvariant
+//@   case len(op0.Value) == 2 && len(op1.Value) == 2 && !eval.ScaleInvariant ; alias opOut = op1
+//@   case len(op0.Value) == 2 && len(op1.Value) == 2 && !eval.ScaleInvariant ; alias opOut = op0
+//@   let T = uf_rnsval(contentid(eval.tMontgomery))
+//@   requires uf_rnsmexp(contentid(eval.tMontgomery)) == 2
+//@   requires isntt(op0.Value[0]) && isntt(op0.Value[1]) && isntt(op1.Value[0]) && isntt(op1.Value[1]) && mexp(op0.Value[0]) == 0 && mexp(op0.Value[1]) == 0 && mexp(op1.Value[0]) == 0 && mexp(op1.Value[1]) == 0
+//@   ensures implies(isnil(err), len(opOut.Value) == 3)
+//@   ensures implies(isnil(err), val(opOut.Value[0]) == T * old(val(op0.Value[0])) * old(val(op1.Value[0])))
+//@   ensures implies(isnil(err), val(opOut.Value[1]) == T * old(val(op0.Value[0])) * old(val(op1.Value[1])) + T * old(val(op0.Value[1])) * old(val(op1.Value[0])))
+//@   ensures implies(isnil(err), val(opOut.Value[2]) == T * old(val(op0.Value[1])) * old(val(op1.Value[1])))
+//@   ensures implies(isnil(err), mexp(opOut.Value[0]) == 0 && mexp(opOut.Value[1]) == 0 && mexp(opOut.Value[2]) == 0)
